@@ -11,13 +11,13 @@ import life_common as L  # noqa: E402
 
 def body(c):
     directed = []
-    for arch in (["Linear", "Other", "Linear"], ["LayerNorm", "Linear"], ["Conv2d", "Other", "Conv2d"], ["Linear", "LayerNorm", "Linear"]):
+    for arch in (["Linear", "Other", "Linear"], ["LayerNorm", "Linear"], ["Conv2d", "Other", "Conv2d"], ["Linear", "LayerNorm", "Linear"], ["Linear", "Linear"]):
         for aq in ("qint8", "qfloat8"):
             for mo in ("m50", "m25", "m90"):
                 for sl in (False, True):
                     directed.append({"arch": arch, "prog": [{"a": "Quantize", "wq": "qint8", "aq": aq, "filter": "all"},
                                                             {"a": "EnterCalib", "momentum": mo, "streamline": sl}, {"a": "CalibBatch", "batch": "b1"},
-                                                            {"a": "CalibBatch", "batch": "b2"}, {"a": "CalibBatch", "batch": "b3"}, {"a": "ExitCalib"},
+                                                            {"a": "CalibBatch", "batch": "b2"}, {"a": "ForeignBatch"}, {"a": "CalibBatch", "batch": "b3"}, {"a": "ExitCalib"},
                                                             {"a": "EnterCalib", "momentum": "m50", "streamline": sl}, {"a": "CalibBatch", "batch": "b2"}, {"a": "ExitCalib"}]})
             directed.append({"arch": arch, "prog": [{"a": "Quantize", "wq": "qint8", "aq": aq, "filter": "all"}, {"a": "EnterCalib", "momentum": "m50", "streamline": False},
                                                     {"a": "CalibBatch", "batch": "bone"}, {"a": "CalibBatch", "batch": "b1"}, {"a": "ExitCalib"}]})
